@@ -5,6 +5,8 @@ import glob, json, os, subprocess, sys
 from concurrent.futures import ThreadPoolExecutor
 ROOT = os.path.dirname(os.path.dirname(os.path.abspath(__file__)))
 J = int(sys.argv[sys.argv.index('-j') + 1]) if '-j' in sys.argv else 4
+import re
+ONLY = re.compile(sys.argv[sys.argv.index('--only') + 1]) if '--only' in sys.argv else None      # e.g. --only 'C..[j-m]$' : a subset (STATUS.md is then not rewritten)
 
 
 def one(d):
@@ -21,7 +23,7 @@ def one(d):
 
 rows = []
 with ThreadPoolExecutor(J) as ex:
-    for sid, out, err in ex.map(one, sorted(glob.glob(os.path.join(ROOT, 'seeded', 'C*')))):
+    for sid, out, err in ex.map(one, [d for d in sorted(glob.glob(os.path.join(ROOT, 'seeded', 'C*'))) if ONLY is None or ONLY.search(os.path.basename(d))]):
         if out is None:
             rows.append((sid, 'ERROR', err))
             continue
@@ -34,7 +36,7 @@ with ThreadPoolExecutor(J) as ex:
         rows.append((sid, 'confirmed' if ok else 'NOT CONFIRMED (%s)' % json.dumps({k: out.get(k) for k in ('patch_applies', 'tests', 'demo_with_change', 'demo_without_change')}), res))
         print(sid, rows[-1][1], '|', res, flush=True)
 head = subprocess.run(['git', '-C', '/repo', 'log', '-1', '--format=%h'], capture_output=True, text=True).stdout.strip()
-with open(os.path.join(ROOT, 'seeded', 'STATUS.md'), 'w') as f:
+with open(os.path.join(ROOT, 'seeded', 'STATUS.md') if ONLY is None else os.devnull, 'w') as f:
     f.write('# Seeded changes against the quick tier (tools/seedall.py), /repo at %s\n\n| id | change confirmed | checks |\n|---|---|---|\n' % head)
     for r in rows:
         f.write('| %s | %s | %s |\n' % tuple(str(x).replace('|', '\\|').replace('\n', ' ') for x in r))
